@@ -147,8 +147,7 @@ func (d *DeadlineChan[T]) Recv() (b T, err error) {
 	verifhook.At("common.DeadlineChan.Recv.afterPoll")
 
 	if d.closed.Load() {
-		err = io.EOF
-		return
+		return d.pollOr(io.EOF)
 	}
 	verifhook.At("common.DeadlineChan.Recv.afterClosedCheck")
 
@@ -156,16 +155,26 @@ func (d *DeadlineChan[T]) Recv() (b T, err error) {
 	verifhook.At("common.DeadlineChan.Recv.beforeWait")
 	select {
 	case <-errChan:
-		err = d.deadline.Err()
-		return
+		return d.pollOr(d.deadline.Err())
 	default:
 		select {
 		case <-errChan:
-			err = d.deadline.Err()
-			return
+			return d.pollOr(d.deadline.Err())
 		case b = <-d.C:
 			return
 		}
+	}
+}
+
+// pollOr returns an item that is already queued, or err if the queue is empty.
+// An item that was queued while Recv was deciding to give up (a Send followed
+// by Close, or a deadline that expires) must still come out before the error.
+func (d *DeadlineChan[T]) pollOr(err error) (b T, _ error) {
+	select {
+	case b = <-d.C:
+		return b, nil
+	default:
+		return b, err
 	}
 }
 
